@@ -223,12 +223,24 @@ func fillCase(c *h.Ctx, tmpl *ref.Node, maxFullVars int) {
 			keys = append(keys, s.name)
 			anyBad = anyBad || fv.bad
 		}
-		// unknown keys are ignored
-		if a%3 == 1 {
+		// unknown keys are ignored - whatever they look like and whatever their values are
+		switch a % 5 {
+		case 1:
 			goMap["unknown_key"] = 42
-		} else if a%3 == 2 {
+		case 2:
 			goMap["zz"] = "text"
 			goMap["v99"] = ast.NewASCIINode("n")
+		case 3:
+			if len(ellipsisNames(tmpl)) == 0 { // keys shaped like ellipses that name nothing in this template
+				goMap["...[9]"] = -1
+				goMap["..."] = "x"
+			}
+		case 4:
+			if len(ellipsisNames(tmpl)) == 0 {
+				goMap["...[3]"] = nil
+				goMap["...[12]"] = int64(2)
+				goMap[""] = 0
+			}
 		}
 		in := fmt.Sprintf("template %s filled with %s", tdesc, showMap(goMap))
 		one, pan := tryFill(real, goMap)
@@ -466,13 +478,13 @@ func init() {
 			}
 			perms := [][]int{{0, 1, 2, 3}, {0, 1, 3, 2}, {0, 2, 1, 3}, {0, 2, 3, 1}, {0, 3, 1, 2}, {0, 3, 2, 1}, {1, 0, 2, 3}, {1, 0, 3, 2}, {1, 2, 0, 3}, {1, 2, 3, 0}, {1, 3, 0, 2}, {1, 3, 2, 0},
 				{2, 0, 1, 3}, {2, 0, 3, 1}, {2, 1, 0, 3}, {2, 1, 3, 0}, {2, 3, 0, 1}, {2, 3, 1, 0}, {3, 0, 1, 2}, {3, 0, 2, 1}, {3, 1, 0, 2}, {3, 1, 2, 0}, {3, 2, 0, 1}, {3, 2, 1, 0}}
-			sp = append(sp, h.Space{Name: "message-fill-waitbit-session-every-order", Count: product(len(msgT), len(perms), 2, 8),
+			sp = append(sp, h.Space{Name: "message-fill-waitbit-session-every-order", Count: product(len(msgT), len(perms), 2, 8) * 2,
 				Describe: func(i uint64) interface{} {
-					d := unrank(i, len(msgT), len(perms), 2, 8)
+					d := unrank(i/2, len(msgT), len(perms), 2, 8)
 					return fmt.Sprintf("template %s, operation order %v, wait bit %v, value choice %03b", ref.Print(msgT[d[0]]), perms[d[1]], d[2] == 1, d[3])
 				},
 				Run: func(c *h.Ctx, i uint64) {
-					d := unrank(i, len(msgT), len(perms), 2, 8)
+					d := unrank(i/2, len(msgT), len(perms), 2, 8)
 					tmpl := msgT[d[0]]
 					var slots []slot
 					slotsOf(tmpl, &slots)
@@ -492,8 +504,12 @@ func init() {
 					}
 					w := d[2] == 1
 					m := ast.NewDataMessage("msg", 5, 3, 2, "H<-E", Build(tmpl))
+					observe := i%2 == 1 // every message on the way is encoded, printed and listed before the next step
 					pan := catch(func() {
 						for _, op := range perms[d[1]] {
+							if observe {
+								_, _, _ = m.ToBytes(), m.String(), m.Variables()
+							}
 							switch op {
 							case 0:
 								m = m.FillVariables(half)
